@@ -18,7 +18,7 @@ VARIABLES reg, mode, pick, hist
 vars == <<reg, mode, pick, hist>>
 
 CoefAtoms ==
-  { << >>, <<1>>, <<2>>, <<5>>, <<9>>, <<25>>, <<125>>, Cmax, Sub(Cmax, One), CmaxP1Div10, Sub(CmaxP1Div10, One),
+  { << >>, <<1>>, <<2>>, <<3>>, <<4>>, <<5>>, <<7>>, <<8>>, <<9>>, <<16>>, <<25>>, <<64>>, <<125>>, <<1024>>, Pow2(20), Pow2(40), Pow2(100), Pow2(112), Cmax, Sub(Cmax, One), CmaxP1Div10, Sub(CmaxP1Div10, One),
     Pow2(63), Pow2(64), Add(Pow2(64), One), Pow2(110), Sub(Pow2(113), One), Pow2(113) }
   \cup { Pow10(k) : k \in 1..34 } \cup { Sub(Pow10(k), One) : k \in 1..34 } \cup { Add(Pow10(k), One) : k \in 1..33 }
   \cup { MulSmall(Pow10(k), 5) : k \in 0..33 } \cup { Add(MulSmall(Pow10(k), 5), One) : k \in 1..33 } \cup { Sub(MulSmall(Pow10(k), 5), One) : k \in 1..33 }
@@ -36,7 +36,7 @@ Init == /\ reg = [r \in Regs |-> ZeroV(FALSE)] /\ mode = RNE /\ pick = [op |-> "
 \* three small steps per operation: the kind, its parameters, its effect (so that the simulator, which picks uniformly
 \* among the successors, gives every kind of operation the same weight and evaluates one semantic function per step)
 Kinds == {"Load", "Bin", "BinDefault", "Un", "Round", "MinMax", "SetMode", "QuoRem", "Text", "Scale",
-          "Quant", "Cmp", "Codec", "Int", "Frexp", "Pow"}
+          "Quant", "Cmp", "Codec", "Int", "Frexp", "Pow", "Root", "ExpLog", "F64", "FmtE"}
 IntTypes == {"int64", "int32", "uint64", "uint32"}
 ChooseKind ==
   /\ pick.op = "none" /\ Len(hist) < Depth
@@ -68,8 +68,41 @@ ChooseParams ==
        [] pick.kind = "Int" -> \E ty \in IntTypes, a \in Regs, d \in Regs : pick' = [op |-> "Int", ty |-> ty, a |-> a, d |-> d]    \* FromInt(ToInt(reg[a]))
        [] pick.kind = "Frexp" -> \E a \in Regs, d \in Regs : pick' = [op |-> "Frexp", a |-> a, d |-> d]      \* Ldexp(Frexp(reg[a]))
        [] pick.kind = "Pow" -> \E a \in Regs, b \in Regs, d \in Regs, m \in Modes : pick' = [op |-> "Pow", a |-> a, b |-> b, d |-> d, m |-> m, wm |-> TRUE]
+       [] pick.kind = "Root" -> \E f \in {"SqrtSq", "CbrtCube"}, a \in Regs, d \in Regs : pick' = [op |-> f, a |-> a, d |-> d]       \* Sqrt(x*x), Cbrt(x*x*x) where the power is exact
+       [] pick.kind = "ExpLog" -> \E f \in {"Exp10", "Log10", "Exp2", "Log2"}, a \in Regs, d \in Regs : pick' = [op |-> f, a |-> a, d |-> d]   \* the exactly representable results
+       [] pick.kind = "F64" -> \E a \in Regs, d \in Regs : pick' = [op |-> "F64", a |-> a, d |-> d]          \* FromFloat64(Float64(reg[a])) for integers below 2^53
+       [] pick.kind = "FmtE" -> \E a \in Regs, d \in Regs, pr \in {34, 40} : pick' = [op |-> "FmtE", a |-> a, d |-> d, prec |-> pr]   \* Parse(Format(reg[a], 'e', prec)): all digits are printed
   /\ UNCHANGED <<reg, mode, hist>>
 Choose == ChooseKind \/ ChooseParams
+
+\* the composite steps that have an exactly specified result only for some operands
+SmallIntOf(x) ==      \* x is an integer of magnitude below 10^6: its value, or -1 (as a pair <<ok, neg, n>>)
+  IF x.k # "fin" THEN <<FALSE, FALSE, 0>>
+  ELSE IF x.c = << >> THEN <<TRUE, FALSE, 0>>
+  ELSE IF x.q < 0 \/ NumDigits(x.c) + x.q > 6 THEN <<FALSE, FALSE, 0>>
+  ELSE <<TRUE, x.neg, ToInt(MulPow10(x.c, x.q))>>
+IsPow10C(c) == c # << >> /\ c = Pow10(NumDigits(c) - 1)
+Log2Of(c) == IF \E n \in 0..113 : Pow2(n) = c THEN CHOOSE n \in 0..113 : Pow2(n) = c ELSE 0 - 1
+Applicable(p) ==
+  LET x == reg[p.a] IN
+  CASE p.op = "SqrtSq" -> x.k = "fin" /\ Le(Mul(x.c, x.c), Cmax) /\ 2 * x.q >= Emin /\ 2 * x.q <= Emax
+    [] p.op = "CbrtCube" -> x.k = "fin" /\ Le(Mul(Mul(x.c, x.c), x.c), Cmax) /\ 3 * x.q >= Emin /\ 3 * x.q <= Emax /\ 2 * x.q >= Emin /\ 2 * x.q <= Emax
+    [] p.op = "Exp10" -> LET s == SmallIntOf(x) IN s[1] /\ (IF s[2] THEN 0 - s[3] >= Emin ELSE s[3] <= Emax)
+    [] p.op = "Exp2" -> LET s == SmallIntOf(x) IN s[1] /\ (IF s[2] THEN s[3] <= 48 ELSE s[3] <= 112)
+    [] p.op = "Log10" -> x.k = "fin" /\ ~x.neg /\ IsPow10C(x.c)
+    [] p.op = "Log2" -> x.k = "fin" /\ ~x.neg /\ x.q = 0 /\ x.c # << >> /\ Log2Of(x.c) >= 0
+    [] p.op = "F64" -> x.k = "inf" \/ (x.k = "fin" /\ (x.c = << >> \/ (x.q >= 0 /\ NumDigits(x.c) + x.q <= 17 /\ Lt(MulPow10(x.c, x.q), Pow2(53)))))
+    [] p.op = "Pow" -> PowLadder(reg[p.a], reg[p.b], p.m).t # "num"
+    [] OTHER -> TRUE
+Composite(p) ==
+  LET x == reg[p.a] IN
+  CASE p.op = "SqrtSq" -> Fin(FALSE, x.c, x.q)
+    [] p.op = "CbrtCube" -> Fin(x.neg, x.c, x.q)
+    [] p.op = "Exp10" -> LET s == SmallIntOf(x) IN Fin(FALSE, One, IF s[2] THEN 0 - s[3] ELSE s[3])
+    [] p.op = "Exp2" -> LET s == SmallIntOf(x) IN IF s[2] THEN Fin(FALSE, Pow5(s[3]), 0 - s[3]) ELSE Fin(FALSE, Pow2(s[3]), 0)
+    [] p.op = "Log10" -> LET n == NumDigits(x.c) - 1 + x.q IN Fin(n < 0, FromInt(IF n < 0 THEN 0 - n ELSE n), 0)
+    [] p.op = "Log2" -> Fin(FALSE, FromInt(Log2Of(x.c)), 0)
+    [] p.op = "F64" -> x
 
 \* the value the specification requires in the destination register (NaN results carry no further detail here)
 Plain(v) == [k |-> v.k, neg |-> (IF v.k = "nan" THEN FALSE ELSE v.neg), c |-> v.c, q |-> v.q]
@@ -97,6 +130,8 @@ Result(p) ==
     [] p.op = "Frexp" -> reg[p.a]                                                    \* frac * 10^e = d exactly
     [] p.op = "Pow" -> LET ld == PowLadder(reg[p.a], reg[p.b], mm) IN
                        IF ld.t = "num" THEN reg[p.d] ELSE Plain(Resolve(ld, mm))    \* only the exactly specified cases are stored
+    [] p.op \in {"SqrtSq", "CbrtCube", "Exp10", "Exp2", "Log10", "Log2", "F64"} -> IF Applicable(p) THEN Composite(p) ELSE reg[p.d]
+    [] p.op = "FmtE" -> reg[p.a]                                                     \* every digit is printed: the text denotes the value exactly
 \* second result (the remainder of QuoRem)
 Result2(p) == LET mm == IF "wm" \in DOMAIN p /\ p.wm THEN p.m ELSE mode IN Plain(QuoRemSem(reg[p.a], reg[p.b], mm)[2])
 
@@ -111,7 +146,7 @@ Apply ==
           /\ mode' = mode
           /\ hist' = Append(hist, pick @@ [exp |-> v, exp2 |-> (IF pick.op = "QuoRem" THEN Result2(pick) ELSE v),
                                             bits |-> (IF pick.op = "Load" THEN Encode(v) ELSE << >>),
-                                            skip |-> (pick.op = "Pow" /\ PowLadder(reg[pick.a], reg[pick.b], pick.m).t = "num")])
+                                            skip |-> ~Applicable(pick)])
   /\ pick' = [op |-> "none"]
 
 Next == Choose \/ Apply
